@@ -35,7 +35,7 @@ package stree
 //@+     && (forall y ref :: {y in x.left.desc} {y in x.right.desc} !(inD(x.left, y) && inD(x.right, y)))
 //@ pred closed(y *node[T]) := (forall z *node[T] :: {z in y.desc} z in y.desc ==> (forall w ref :: {w in z.desc} w in z.desc ==> w in y.desc) && (forall k int :: {k in z.keys} k in z.keys ==> k in y.keys && z.rep[k] == y.rep[k]))
 //@ pred treeOK(n *node[T], cmp func(T, T) int) := n != nil ==> allocated(n) && n in n.desc
-//@+     && (forall y *node[T] :: {y in n.desc} y in n.desc ==> y != nil && allocated(y) && local(y, cmp) && closed(y))
+//@+     && (forall y *node[T] :: {y in n.desc} {weight(7)} y in n.desc ==> y != nil && allocated(y) && local(y, cmp) && closed(y))
 //@ pred treeInv(t *Tree[T]) := t != nil && treeOK(t.root, t.compare)
 //@+     && (forall k int :: {k in t.elems} k in t.elems <==> inK(t.root, k))
 //@+     && (forall k int :: {t.vals[k]} k in t.elems ==> t.vals[k] == t.root.rep[k])
@@ -435,10 +435,34 @@ package stree
 //@   ensures  [C01] went: forall j int :: {callret(f, j)} old(ncalls(f)) <= j && j < ncalls(f) - 1 ==> callret(f, j)
 //@   ensures  [C01] stopped: !result ==> ncalls(f) > old(ncalls(f)) && !callret(f, ncalls(f) - 1)
 //@   ensures  [C01] finished: result ==> forall j int :: {callret(f, j)} old(ncalls(f)) <= j && j < ncalls(f) ==> callret(f, j)
+//@   ensures  [C01] older: forall j int :: {callarg(f, j)} {callret(f, j)} 0 <= j && j < old(ncalls(f)) ==> callarg(f, j) == old(callarg(f, j)) && callret(f, j) == old(callret(f, j))
 //@   modifies calls(f)
 //@   call inorder#1: cmp = cmp
+//@   loop 1: invariant [C01] older: forall j int :: {callarg(f, j)} {callret(f, j)} 0 <= j && j < old(ncalls(f)) ==> callarg(f, j) == old(callarg(f, j)) && callret(f, j) == old(callret(f, j))
 //@   loop 1: invariant [C01] shape: treeOK(old(n), cmp) && (n != nil ==> old(n) != nil && n in old(n).desc)
 //@   loop 1: invariant [C01] count: ncalls(f) >= old(ncalls(f)) && ncalls(f) - old(ncalls(f)) + cntOf(n) == cntOf(old(n))
-//@   loop 1: invariant [C01] members: forall j int :: {callarg(f, j)} old(ncalls(f)) <= j && j < ncalls(f) ==> inK(old(n), rank(cmp, callarg(f, j))) && callarg(f, j) == old(n).rep[rank(cmp, callarg(f, j))] && callret(f, j)
+//@   loop 1: invariant [C01] members: forall j int :: {callarg(f, j)} {callret(f, j)} old(ncalls(f)) <= j && j < ncalls(f) ==> inK(old(n), rank(cmp, callarg(f, j))) && callarg(f, j) == old(n).rep[rank(cmp, callarg(f, j))] && callret(f, j)
 //@   loop 1: invariant [C01] below: forall j int :: {callarg(f, j)} old(ncalls(f)) <= j && j < ncalls(f) ==> (forall k int :: {k in n.keys} inK(n, k) ==> rank(cmp, callarg(f, j)) < k)
 //@   loop 1: invariant [C01] ascending: forall a int, b int :: {callarg(f, a), callarg(f, b)} old(ncalls(f)) <= a && a < b && b < ncalls(f) ==> rank(cmp, callarg(f, a)) < rank(cmp, callarg(f, b))
+//@
+//@ func (*Tree).Inorder
+//@   role yield yield
+//@   requires [C01] treeInv(t) && sizeInv(t)
+//@   ensures  [C01] count: ncalls(yield) >= old(ncalls(yield)) && ncalls(yield) - old(ncalls(yield)) <= t.size
+//@   ensures  [C01] members: forall j int :: {callarg(yield, j)} old(ncalls(yield)) <= j && j < ncalls(yield) ==> rank(t.compare, callarg(yield, j)) in t.elems && callarg(yield, j) == t.vals[rank(t.compare, callarg(yield, j))]
+//@   ensures  [C01] ascending: forall a int, b int :: {callarg(yield, a), callarg(yield, b)} old(ncalls(yield)) <= a && a < b && b < ncalls(yield) ==> rank(t.compare, callarg(yield, a)) < rank(t.compare, callarg(yield, b))
+//@   ensures  [C01] went: forall j int :: {callret(yield, j)} old(ncalls(yield)) <= j && j < ncalls(yield) - 1 ==> callret(yield, j)
+//@   ensures  [C01] all: ncalls(yield) - old(ncalls(yield)) < t.size ==> ncalls(yield) > old(ncalls(yield)) && !callret(yield, ncalls(yield) - 1)
+//@   modifies calls(yield)
+//@   call inorder#1: cmp = t.compare
+//@
+//@ func (*Cursor).Inorder
+//@   ghost cmp func(T, T) int
+//@   role yield yield
+//@   requires [C01] c != nil ==> (forall k int :: {c.path[k]} 0 <= k && k < len(c.path) ==> c.path[k] != nil) && (len(c.path) > 0 ==> treeOK(c.path[len(c.path) - 1], cmp))
+//@   ensures  [C01] invalid: c == nil || len(c.path) == 0 ==> ncalls(yield) == old(ncalls(yield))
+//@   ensures  [C01] members: c != nil && len(c.path) > 0 ==> forall j int :: {callarg(yield, j)} old(ncalls(yield)) <= j && j < ncalls(yield) ==> inK(c.path[len(c.path) - 1], rank(cmp, callarg(yield, j)))
+//@   ensures  [C01] ascending: forall a int, b int :: {callarg(yield, a), callarg(yield, b)} old(ncalls(yield)) <= a && a < b && b < ncalls(yield) ==> rank(cmp, callarg(yield, a)) < rank(cmp, callarg(yield, b))
+//@   ensures  [C01] count: c != nil && len(c.path) > 0 ==> ncalls(yield) - old(ncalls(yield)) <= cntOf(c.path[len(c.path) - 1]) && (ncalls(yield) - old(ncalls(yield)) < cntOf(c.path[len(c.path) - 1]) ==> ncalls(yield) > old(ncalls(yield)) && !callret(yield, ncalls(yield) - 1))
+//@   modifies calls(yield)
+//@   call inorder#1: cmp = cmp
